@@ -21,7 +21,7 @@ def componentGroups : List String := ["DIMENSION", "MEASURE", "ATTRIBUTE"]
 def nullNeq : Bool := true
 def nullRole : String := "DIMENSION"
 /-- does a guard turn a dtype / role missing from the mapping into an InputValidationException? (plain subscript = KeyError) -/
-def dtypeMissIV : Bool := false
+def dtypeMissIV : Bool := true
 def roleMissIV : Bool := false
 /-- is the dtype looked up before the role inside the loop body? -/
 def dtypeFirst : Bool := true
